@@ -12,7 +12,10 @@ Import ListNotations.
 
 Definition name := list str.
 Definition path := list str.
-Inductive node := NoEnt | Dir | File (text : str).
+(* what the calls on a path do during one get_data call: nothing there; a directory; a regular file with
+   this text; [Broken]: os.stat fails with an OSError other than ENOENT/ENOTDIR (EIO, EACCES, ESTALE ...), so
+   Path.exists() raises; [Unreadable]: stat succeeds and says regular file, but open/read fails *)
+Inductive node := NoEnt | Dir | File (text : str) | Broken | Unreadable.
 Definition fstree := list (path * node).
 
 Definition name_eqb (a b : name) : bool := list_eqb str_eqb a b.
@@ -172,11 +175,13 @@ Section Compiler.
     if forallb seg_ok n && negb (is_nil n) then
       let py := removelast n ++ [last n [] ++ suffix C] in
       match fs_kind t py with
-      | File _ => Ok (n, py)
-      | _ =>
+      | File _ | Unreadable => Ok (n, py)
+      | Broken => Err OSError                (* exists() re-raises: no silent fall-back to init *)
+      | NoEnt | Dir =>
           let pi := n ++ [s_init ++ suffix C] in
           match fs_kind t pi with
           | NoEnt => Err FileNotFoundError
+          | Broken => Err OSError
           | _ => Ok (n ++ [s_init], pi)
           end
       end
@@ -296,6 +301,7 @@ Section Compiler.
   Definition process_top (oc : item) : res top_entry :=
     match fs_kind t top_path with
     | NoEnt => Err FileNotFoundError
+    | Broken => Err OSError
     | _ =>
         bind (wrap_rt (render_path top_path)) (fun text =>
           let tv := top_version text in
@@ -383,6 +389,7 @@ Section Compiler.
   Definition spec_top : res (option (list val)) :=
     match fs_kind t top_path with
     | NoEnt => Err FileNotFoundError
+    | Broken => Err OSError
     | _ => bind (wrap_rt (render_path top_path)) (fun text =>
            bind (wrap_rt (yload text)) eval_top)
     end.
